@@ -492,6 +492,105 @@ pub fn case() -> impl Strategy<Value = Case> {
     })
 }
 
+// ---------------------------------------------------------------- forwarded-gas sweep
+//
+// The first CALL of the script is given exactly enough gas for the callee to die at a chosen
+// instruction (in particular at its final RET / RETD): the callee must then end in OutOfGas and
+// never spend more than what was forwarded. The full oracle of `check` runs on every variant.
+
+#[derive(Debug, Clone, Serialize, Deserialize)]
+pub struct SweepCase {
+    pub world: WorldSpec,
+    /// selectors of the callee instructions at which the forwarded gas runs out
+    pub picks: Vec<u16>,
+    /// extra gas on top of the consumption before the picked instruction
+    pub extra: Vec<u8>,
+}
+
+fn sweep_case() -> impl Strategy<Value = SweepCase> {
+    (case(), prop::collection::vec(any::<u16>(), 1..4), prop::collection::vec(0u8..48, 2..5)).prop_map(|(c, picks, extra)| SweepCase { world: c.world, picks, extra })
+}
+
+fn sweep_check(c: &SweepCase, obs: &mut Obs) -> Check {
+    let Some(call_at) = c.world.script.iter().position(|t| matches!(t, Tpl::Call { .. })) else {
+        obs.class("sweep:no-call");
+        return Ok(());
+    };
+    // 1. profile: forward everything, ample limit
+    let mut w = c.world.clone();
+    w.gas_limit = 60_000;
+    if let Tpl::Call { gas, .. } = &mut w.script[call_at] {
+        *gas = prog::Val::Reg(CGAS as u8);
+    }
+    let b = match w.build() {
+        Ok(b) => b,
+        Err(_) => {
+            obs.class("world-invalid");
+            return Ok(());
+        }
+    };
+    let Ok(ready) = b.ready() else {
+        obs.class("world-not-ready");
+        return Ok(());
+    };
+    let mut vm = b.new_vm(b.storage.clone());
+    let mut entry: Option<u64> = None;
+    let mut done = false;
+    let mut consumed: Vec<u64> = vec![];
+    let r = world::run_stepping(
+        &mut vm,
+        ready,
+        b.gas_limit + 16,
+        |s| {
+            if done {
+                return;
+            }
+            let d = s.vm.verif_call_depth();
+            let cg = s.vm.registers()[CGAS];
+            match (entry, d) {
+                (None, 1) => {
+                    entry = Some(cg);
+                    consumed.push(0);
+                }
+                (Some(e), 1) => consumed.push(e.saturating_sub(cg)),
+                (Some(_), 0) => done = true,
+                _ => {}
+            }
+        },
+        |_, _| {},
+    );
+    if r.is_err() || consumed.is_empty() {
+        obs.class("sweep:call-not-entered");
+        return Ok(());
+    }
+    obs.class("sweep:profiled");
+    // 2. variants: die at the last instruction of the callee, and at picked ones
+    let mut targets: Vec<u64> = vec![*consumed.last().unwrap()];
+    for p in &c.picks {
+        targets.push(consumed[crate::gens::pick(*p, consumed.len())]);
+    }
+    let mut n = 0u64;
+    for (i, t) in targets.iter().enumerate() {
+        for e in &c.extra {
+            let g = t.saturating_add(*e as u64);
+            if g >= 0x3ffff {
+                continue;
+            }
+            let mut w2 = w.clone();
+            if let Tpl::Call { gas, .. } = &mut w2.script[call_at] {
+                *gas = prog::Val::Imm(g as u32);
+            }
+            n += 1;
+            check(&Case { world: w2 }, obs).map_err(|f| Failure::new(format!("sweep:{}", f.key), format!("forwarded gas {g} (callee consumption before the picked instruction {t}, pick #{i}): {}", f.msg)))?;
+        }
+    }
+    obs.note("sweep-variants", n);
+    if n > 0 {
+        obs.nontrivial(&(consumed.len(), targets.clone()));
+    }
+    Ok(())
+}
+
 pub fn property() -> Property {
     Property {
         id: "C26",
@@ -502,7 +601,10 @@ pub fn property() -> Property {
             "model::isa opcode table (C08) decodes the instruction word; sha2 for minted asset ids".into(),
             "verification hooks verif_call_depth / verif_call_stack_ids are faithful observers".into(),
         ],
-        parts: vec![gen_part("invariants+cost", "world (3:1 general : storage-heavy contracts)", (6_000, 200_000), |_c: &Ctx| case(), check)],
+        parts: vec![
+            gen_part("invariants+cost", "world (3:1 general : storage-heavy contracts)", (6_000, 200_000), |_c: &Ctx| case(), check),
+            gen_part("forwarded-gas-sweep", "the first CALL forwards exactly enough gas for the callee to run out at its final / a picked instruction (+0..47)", (1_500, 40_000), |_c: &Ctx| sweep_case(), sweep_check),
+        ],
         floors: vec![("invariants+cost", "has-call", 0.10), ("invariants+cost", "oog-inside-call", 0.02), ("invariants+cost", "has-exact-storage", 0.10)],
     }
 }
